@@ -2,7 +2,7 @@
 import z3
 
 from pyvc import sym
-from pyvc.arr import SymArray
+from pyvc.arr import SymArray, check_same
 from pyvc.harness import Unit
 from pyvc.sym import SB, SC, SI, SR, check, assume
 from checks import kernels_common as kc, update_common as uc
@@ -118,7 +118,7 @@ def run_polyak(mutate=None):
         check("C13.polyak.iterate", sym.eq(A_next.at(e, cc), A_prev.at(e, cc) + v_new))
         wr = [w for w in c.ghost.get("writes", []) if w[0] is A_prev or (not first and w[0] is vals[0])]
         check("C11.no_aliasing.polyak_does_not_mutate_previous_iterates", z3.BoolVal(not wr))
-        check("C13.polyak.history_appended_and_trimmed", z3.BoolVal(vals[-1] is A_next and len(vals) <= 2 and len(vel) <= 2 and len(vals) == 2))
+        check_same("C13.polyak.history_appended_and_trimmed", [(vals[-1], A_next)], also=(len(vals) <= 2 and len(vel) <= 2 and len(vals) == 2))
         # relative error = max over edges of |K - A_prev| / max(|A_next|, 1e-20)
         num2 = (K.at(e, SI(0)) - A_prev.at(e, SI(0))) ** 2 + (K.at(e, SI(1)) - A_prev.at(e, SI(1))) ** 2
         den2 = A_next.at(e, SI(0)) ** 2 + A_next.at(e, SI(1)) ** 2
